@@ -25,7 +25,8 @@ REACH_PROBES = ['after_polluting_case_in_a_suite', 'second_use_of_program_symbol
                 'driver_sym', 'chain_depth_2', 'chain_depth_3', 'stdin_accumulated', 'stdin_from_program',
                 'setup_stdin_for_atc', 'list_symbol_spliced', 'empty_string_argument', 'text_until_eol', 'cd_before_use',
                 'nonzero_exit_fail_in_assert', 'nonzero_exit_hard_error', 'ignore_exit_code', 'spawn_failure',
-                'capture_exit_code_255', 'transformation_on_output']
+                'capture_exit_code_255', 'transformation_on_output', 'policy_after_ignoring_neighbour',
+                'policy_after_strict_neighbour', 'policy_after_ignoring_case']
 
 WORDS = ['a', 'bb', 'c-d', 'x.y', 'k=v', '7', 'A_B', 'p/q', 'm:n', 'u,v']
 SYMDEFS = ["def string STR1 = s1val", "def string STR2 = 'two words'", "def list LST1 = l1 'l 2' l3", "def list LST0 =",
@@ -234,6 +235,13 @@ def sweep_specs():
                     sp.append(('policy', ph, form, code))
             sp.append(('policy', ph, 'run', 'ENOENT'))
             sp.append(('policy', ph, 'file_stdout_from_ignore', 'ENOENT'))
+            # the policy belongs to the instruction that states it: a neighbour (same phase) or an earlier case of the
+            # same process (suite) with the opposite policy changes nothing
+            for form in ('run', '%', '$', 'file_stdout_from', 'file_stderr_from'):
+                sp.append(('policy', ph, form, 3, 'after_ignoring_neighbour'))
+                sp.append(('policy', ph, form, 3, 'after_ignoring_case'))
+            for form in ('run_ignore', 'file_stdout_from_ignore'):
+                sp.append(('policy', ph, form, 3, 'after_strict_neighbour'))
         _SW['s'] = sp
     return _SW['s']
 
@@ -249,11 +257,11 @@ def make_plan(i, master, tier):
         if s[0] == 'capture':
             return build(seed, tier, g, place=('act_command_line', 'act'), driver='sys', exit_code=s[1], sweep=True,
                          capture=True)
-        return build_policy(seed, tier, g, s[1], s[2], s[3])
+        return build_policy(seed, tier, g, s[1], s[2], s[3], s[4] if len(s) > 4 else None)
     return build(seed, tier, g, place=g.choice(PLACES), driver=None)
 
 
-def build_policy(seed, tier, g, ph, form, code):
+def build_policy(seed, tier, g, ph, form, code, context=None):
     T = {'exit': code if code != 'ENOENT' else 0, 'stdout': 'O\n', 'stderr': 'E\n'}
     if code == 'ENOENT':
         T['spawn_error'] = 'ENOENT'
@@ -263,9 +271,20 @@ def build_policy(seed, tier, g, ph, form, code):
             'file_stderr_from': 'file x.txt = -stderr-from % T',
             'file_stderr_from_ignore': 'file x.txt = -stderr-from -ignore-exit-code % T'}[form]
     ignore = form.endswith('ignore')
+    procs = {'T': T, 'atc': {'exit': 0}}
+    pre = []
+    if context == 'after_ignoring_neighbour':
+        pre = ['run -ignore-exit-code % T0', 'file y0.txt = -stdout-from -ignore-exit-code % T0']
+        procs['T0'] = {'exit': 5, 'stdout': 'O0\n'}
+    elif context == 'after_strict_neighbour':
+        pre = ['run % T0', 'file y0.txt = -stdout-from % T0']
+        procs['T0'] = {'exit': 0, 'stdout': 'O0\n'}
+    elif context == 'after_ignoring_case':
+        procs['polluter-fail'] = {'exit': 5, 'stdout': 'O0\n'}
     return {'format': 1, 'property': PROPERTY, 'engine': 'c10', 'run_seed': seed, 'tier': tier,
             'knobs': {'mem_buff_size': g.choice([1, 8192])}, 'entry': 'cli', 'kind': 'policy', 'phase': ph, 'form': form,
-            'ignore': ignore, 'code': code, 'text': text, 'procs': {'T': T, 'atc': {'exit': 0}}, 'sweep': True}
+            'ignore': ignore, 'code': code, 'text': text, 'procs': procs, 'sweep': True, 'pre': pre,
+            'context': context, 'after_polluter': context == 'after_ignoring_case'}
 
 
 def build(seed, tier, g, place, driver, exit_code=None, sweep=False, capture=False):
@@ -333,6 +352,7 @@ def render(plan):
     plan = materialized(plan)
     if plan['kind'] == 'policy':
         body = {ph: [] for ph in PHASES}
+        body[plan['phase']].extend(plan.get('pre') or [])
         body[plan['phase']].append(plan['text'])
         return ''.join('[%s]\n%s\n' % (p, '\n'.join(body[p])) for p in ('setup',)) + '[act]\n% atc\n' + \
             ''.join('[%s]\n%s\n' % (p, '\n'.join(body[p])) for p in ('before-assert', 'assert', 'cleanup'))
@@ -485,7 +505,7 @@ def execute(plan, scratch):
     sim = kernel.Sim(plan, w)
     polluted = plan.get('after_polluter')
     if polluted:
-        w.write('home/polluter.case', POLLUTER)
+        w.write('home/polluter.case', POLLUTER if plan['kind'] != 'policy' else POLICY_POLLUTER)
         w.write('home/s.suite', '[cases]\npolluter.case\nt.case\n')
     with patches.installed(sim):
         if polluted:
@@ -530,6 +550,11 @@ def string STR1 = polluted
 [act]
 @ PROG1 polluter-act-arg
 '''
+
+
+_PP = 'run -ignore-exit-code % polluter-fail\nfile pN.txt = -stdout-from -ignore-exit-code % polluter-fail\n'
+POLICY_POLLUTER = ('[setup]\n' + _PP.replace('pN', 'p0') + '[act]\n% atc\n' + '[before-assert]\n' + _PP.replace('pN', 'p1') +
+                   '[assert]\n' + _PP.replace('pN', 'p2') + '[cleanup]\n' + _PP.replace('pN', 'p3'))
 
 
 def _target_tag(s):
@@ -685,6 +710,8 @@ def _probes(plan, hist):
             pr['ignore_exit_code'] = 1
         if plan['code'] == 'ENOENT':
             pr['spawn_failure'] = 1
+        if plan.get('context'):
+            pr['policy_' + plan['context']] = 1
     else:
         pk = plan['place']
         pr['place_' + {'run_ignore': 'run', 'file_stdout_from_ignore': 'file_stdout_from', 'file_stderr_from': 'file_stdout_from',
@@ -732,7 +759,7 @@ def _probes(plan, hist):
 def signature(plan, hist):
     plan = materialized(plan)
     if plan['kind'] == 'policy':
-        return True, ('policy', plan['phase'], plan['form'], plan['code'])
+        return True, ('policy', plan['phase'], plan['form'], plan['code'], plan.get('context'))
     m = plan['prog']['model']
     spawned = any(s['tag'] == 'T' for s in hist['spawns']) or plan['place'] == 'act_null'
     if not m:
